@@ -9,6 +9,8 @@ properties do not demand."""
 import json
 
 from .common import import_repo
+import rlp
+
 from .realize import BLANK_ROOT, Realizer, key_of, val, keccak
 
 
@@ -158,9 +160,12 @@ def step(w, ev):
         elif a in ("get", "bget"):
             trie = w.batch if a == "bget" else w.t
             key = key_of(ev["k"])
-            which = w.n % 2
-            got = trie.get(key) if which else trie[key]
-            return {"kind": "val", "v": got}
+            which = w.n % 4
+            if which < 2:
+                got = trie.get(key) if which else trie[key]
+                return {"kind": "val", "v": got}
+            got = trie.exists(key) if which == 2 else (key in trie)
+            return {"kind": "val", "exists": got}
         else:
             raise ValueError(f"unknown action {a}")
     except Exception as exc:  # noqa
@@ -181,7 +186,11 @@ def compare_outcome(w, ev, real, pre, post, out):
         return
     if exp["kind"] == "val":
         if real["kind"] != "val":
-            out.append(("C01", "lookup-raised", {"key": ev["k"], "real": real}))
+            out.append(("C07" if real["kind"].startswith("missing") else "C01", "lookup-raised",
+                        {"key": ev["k"], "real": real}))
+        elif "exists" in real:
+            if real["exists"] != (val(*exp["v"]) != b""):
+                out.append(("C01", "exists-wrong", {"key": ev["k"], "real": real["exists"]}))
         elif real["v"] != val(*exp["v"]):
             out.append(("C01", "lookup-wrong-value", {"key": ev["k"], "real": real["v"],
                                                       "expected": val(*exp["v"])}))
@@ -305,6 +314,239 @@ def check_state(w, st, out, last):
             out.append(("mirror", "batch-ref-count-differs-from-transcription", {}))
 
 
+TYPES = {0: "blank", 1: "leaf", 2: "ext", 3: "branch"}
+
+
+def describe_node(node):
+    """HexaryTrieNode -> the fields the property talks about"""
+    return {"t": TYPES.get(int(node.node_type), str(node.node_type)),
+            "subs": [[int(x) for x in seg] for seg in node.sub_segments],
+            "v": bytes(node.value), "suffix": [int(x) for x in node.suffix]}
+
+
+def real_traverse(w, fn):
+    """run a traversal; returns (description dict, node object or None, sim node or None)"""
+    ex = w.mod.exceptions
+    try:
+        node = fn()
+    except ex.TraversedPartialPath as exc:
+        d = describe_node(exc.node)
+        d.update(kind="partial", trav=[int(x) for x in exc.nibbles_traversed],
+                 tail=[int(x) for x in exc.untraversed_tail])
+        try:
+            sim = exc.simulated_node
+            sd = describe_node(sim)
+            d.update(st=sd["t"], ssubs=sd["subs"], ssuffix=sd["suffix"], sv=sd["v"])
+        except Exception as e2:  # noqa
+            sim = None
+            d.update(st="raised:" + type(e2).__name__, ssubs=[], ssuffix=[], sv=None)
+        return d, None, sim
+    except ex.MissingTraversalNode as exc:
+        return {"kind": "missing", "hash": bytes(exc.missing_node_hash),
+                "trav": [int(x) for x in exc.nibbles_traversed]}, None, None
+    except Exception as exc:  # noqa
+        return {"kind": "raised", "exc": type(exc).__name__, "msg": str(exc)[:160]}, None, None
+    d = describe_node(node)
+    d["kind"] = "node"
+    return d, node, None
+
+
+def expected_desc(e, rz):
+    d = e["d"]
+    x = {"kind": d["kind"]}
+    if d["kind"] == "missing":
+        x["hash"] = rz.node(e["n"])["hash"]
+        x["trav"] = d["trav"]
+        return x
+    x.update(t=d["t"], subs=d["subs"], v=val(d["v"]["tag"], d["v"]["len"]), suffix=d["suffix"])
+    if d["kind"] == "partial":
+        x.update(trav=d["trav"], tail=d["tail"], st=d["st"], ssubs=d["ssubs"], ssuffix=d["ssuffix"],
+                 sv=x["v"] if d["st"] == "leaf" else b"")
+    return x
+
+
+def check_traverse(w, st, out):
+    """C08 (and C07 where node bodies are absent): traverse / traverse_from / root_node
+    against the table the specification computed for this state"""
+    rz = w.rz
+    table = {tuple(e["p"]): e for e in st["trav"]}
+    nodes, sims, bad = {}, {}, 0
+    lossy = st.get("nlost", 0) > 0
+
+    def differ(path, how, exp, got):
+        nonlocal bad
+        bad += 1
+        if bad > 6:
+            return
+        owner = "C07" if (exp.get("kind") == "missing" or got.get("kind") == "missing" or lossy) else "C08"
+        out.append((owner, how, {"path": list(path), "expected": exp, "real": got}))
+
+    for path, e in sorted(table.items()):
+        exp = expected_desc(e, rz)
+        r0 = w.db.reads
+        got, node, sim = real_traverse(w, lambda: w.t.traverse(path))
+        reads = w.db.reads - r0
+        count("traverse")
+        count("traverse:" + exp["kind"] + ("-blank" if exp.get("t") == "blank" else ""))
+        if got != exp:
+            differ(path, "traverse-differs", exp, got)
+            continue
+        if reads > e["hops"] + 1:
+            differ(path, "traverse-reads-more-than-one-entry-per-hop", {"hops": e["hops"]}, {"reads": reads})
+        if node is not None and got["t"] != "blank":
+            nodes[path] = node
+        if sim is not None:
+            sims[path] = sim
+    if () in table and table[()]["d"]["kind"] == "node":
+        got, node, _ = real_traverse(w, lambda: w.t.root_node)
+        exp = expected_desc(table[()], rz)
+        if got != exp:
+            differ((), "root_node-differs-from-traverse-of-empty-path", exp, got)
+    # traverse_from(node obtained at prefix, segment) == traverse(prefix + segment)
+    for path, e in sorted(table.items()):
+        whole = expected_desc(e, rz)
+        for n in range(len(path) + 1):
+            pre, seg = path[:n], path[n:]
+            if pre in nodes:
+                start = nodes[pre]
+                exp = dict(whole)
+                if exp["kind"] in ("partial", "missing"):
+                    if exp["trav"][:len(pre)] != list(pre):
+                        continue
+                    exp["trav"] = exp["trav"][len(pre):]
+                r0 = w.db.reads
+                got, _, _ = real_traverse(w, lambda: w.t.traverse_from(start, seg))
+                reads = w.db.reads - r0
+                count("traverse_from")
+                if got != exp:
+                    differ(path, "traverse_from-differs-from-traverse", dict(exp, prefix=list(pre)), got)
+                hops = e["hops"] - table[pre]["hops"]
+                if reads > max(hops, 0):
+                    differ(path, "traverse_from-reads-more-than-one-entry-per-hop",
+                           {"hops": hops, "prefix": list(pre)}, {"reads": reads})
+            elif pre in sims and seg and not lossy:
+                got, _, _ = real_traverse(w, lambda: w.t.traverse_from(sims[pre], seg))
+                count("traverse_from-simulated-node")
+                if got["kind"] != whole["kind"]:
+                    differ(path, "traverse_from-simulated-node-wrong-kind", dict(whole, prefix=list(pre)), got)
+                elif whole["kind"] == "node":
+                    if got != whole:
+                        differ(path, "traverse_from-simulated-node-differs", dict(whole, prefix=list(pre)), got)
+                elif whole["kind"] == "partial":
+                    keys = ("st", "ssubs", "ssuffix", "sv")
+                    if any(got.get(k) != whole.get(k) for k in keys):
+                        differ(path, "traverse_from-simulated-node-differs", dict(whole, prefix=list(pre)), got)
+
+
+def alter(raw):
+    """well-formed variants of a raw node whose hash differs"""
+    outs = []
+    if len(raw) == 2:
+        if isinstance(raw[1], bytes):
+            outs.append([raw[0], raw[1] + b"x"])
+            outs.append([raw[0], b"y" * max(1, len(raw[1]))])
+        p = bytearray(raw[0])
+        p[-1] ^= 1
+        outs.append([bytes(p), raw[1]])
+    else:
+        outs.append(list(raw[:16]) + [raw[16] + b"z"])
+        for i in range(16):
+            if raw[i] != b"":
+                outs.append(list(raw[:i]) + [b""] + list(raw[i + 1:]))
+                break
+    return outs
+
+
+def check_proofs(w, st, out):
+    """C03: get_proof is on-path and sufficient; get_from_proof is sound for forged lists"""
+    rz = w.rz
+    H = w.H
+    bad = 0
+    ex = w.mod.exceptions
+
+    def fail(clause, detail):
+        nonlocal bad
+        bad += 1
+        if bad <= 6:
+            out.append(("C03", clause, detail))
+
+    def offer(rh, key, nodes):
+        try:
+            return ("val", H.get_from_proof(rh, key, nodes))
+        except ex.BadTrieProof:
+            return ("bad", None)
+        except Exception as exc:  # noqa
+            return ("raised", type(exc).__name__ + ": " + str(exc)[:120])
+
+    root_hash = rz.root_hash(st["root"])
+    for e in st["proofs"]:
+        key = key_of(e["k"])
+        want = val(*e["v"])
+        try:
+            proof = w.t.get_proof(key)
+        except Exception as exc:  # noqa
+            fail("get_proof-raised", {"key": key, "exc": type(exc).__name__})
+            continue
+        on_path = [rz.node(j)["raw"] for j in e["path"]]
+        for nd in proof:
+            if list(nd) not in on_path:
+                fail("proof-contains-node-off-the-path", {"key": key})
+                break
+        if [list(nd) for nd in proof] != [rz.node(j)["raw"] for j in e["proof"]]:
+            out.append(("mirror", "proof-differs-from-transcription", {"key": key}))
+        got = offer(root_hash, key, proof)
+        count("get_proof")
+        if got != ("val", want):
+            fail("own-proof-does-not-verify", {"key": key, "got": got, "want": want})
+    pool = [rz.node(j)["raw"] for j in st["db"]]
+    # a trie nobody in this behaviour has seen
+    other = H({})
+    other[b"\x00\x01"] = b"o" * 40
+    other[b"\x00\x10"] = b"p" * 40
+    other[b""] = b"q" * 33
+    foreign = [rlp.decode(v) for v in other.db.values()]
+    import itertools
+
+    for e in st["needs"]:
+        key = key_of(e["k"])
+        truth = val(*e["v"])
+        rh = rz.root_hash(e["r"])
+        need = [rz.node(j) for j in e["need"]]
+        need_raw = [n["raw"] for n in need]
+        others = [r for r in pool if r not in need_raw]
+        cases = []
+        for r in range(len(need) + 1):
+            for sub in itertools.combinations(range(len(need)), r):
+                chosen = [need_raw[i] for i in sub]
+                full = len(sub) == len(need)
+                cases.append((chosen, full, "subset"))
+                cases.append((chosen + others, full, "subset+rest-of-db"))
+                if not full:
+                    withheld = [need_raw[i] for i in range(len(need)) if i not in sub]
+                    cases.append((chosen + [a for x in withheld for a in alter(x)], False, "withheld-replaced-by-altered"))
+                    cases.append((chosen + foreign, False, "withheld-replaced-by-foreign"))
+        cases.append((list(reversed(need_raw)), True, "reversed"))
+        cases.append((need_raw + need_raw[:1] + foreign, True, "duplicate+foreign"))
+        cases.append((others + list(reversed(need_raw)) + others, True, "shuffled"))
+        for nodes, full, how in cases:
+            got = offer(rh, key, nodes)
+            count("get_from_proof:" + ("sufficient" if full else "forged"))
+            if full:
+                if got != ("val", truth):
+                    fail("sufficient-proof-rejected-or-wrong", {"key": key, "how": how, "got": got, "truth": truth})
+            else:
+                if got[0] == "val":
+                    fail("proof-with-withheld-node-accepted" if got[1] == truth else
+                         "forged-proof-returned-different-value",
+                         {"key": key, "how": how, "got": got, "truth": truth})
+                elif got[0] == "raised":
+                    fail("forged-proof-raised-other-exception", {"key": key, "how": how, "got": got})
+    # an unrelated root: nothing we can offer resolves it except its own nodes
+    got = offer(other.root_hash, b"\x00\x01", pool)
+    if got[0] != "bad" and not (got == ("val", b"o" * 40)):
+        fail("unrelated-root-resolved-wrongly", {"got": got})
+
+
 def pre_info(w):
     return {"root": w.t.root_hash,
             "root2": None if w.t2 is None else w.t2.root_hash,
@@ -403,6 +645,10 @@ def replay(obj, mod, rz, opts=frozenset()):
                 if now != tab:
                     bad = [k for k in tab if now.get(k) != tab[k]]
                     out.append(("C04", "past-root-reads-differently", {"root": rh, "keys": bad[:3]}))
+    if "trav" in st:
+        check_traverse(w, st, out)
+    if "proofs" in st:
+        check_proofs(w, st, out)
     if rz.size_mismatch:
         out.append(("machinery", "spec-size-arithmetic-differs-from-rlp", {"n": rz.size_mismatch[:2]}))
         del rz.size_mismatch[:]
@@ -424,10 +670,18 @@ def _walk(j, acc):
             _walk(c, acc)
 
 
+COUNTS = {}
+
+
+def count(name, n=1):
+    COUNTS[name] = COUNTS.get(name, 0) + n
+
+
 def stats(obj, ctx):
     """tags describing what the final state of a behaviour exercises (non-vacuity counters)"""
     st = obj["st"]
-    tags = []
+    tags = [("calls:" + k, v) for k, v in COUNTS.items()]
+    COUNTS.clear()
     acc = []
     _walk(st.get("root"), acc)
     szs = [s for _, s in acc[1:]]          # non-root nodes: the embed/hash decision applies
